@@ -104,6 +104,12 @@ static inline std::string fmt_value(const std::string &fmt, const Civ &c)
 		}
 		case 'c': snprintf(b, sizeof(b), "%02d", (c.d - 1) / 7 + 1); break;
 		case 'w': snprintf(b, sizeof(b), "%02d", wd == 6 ? 0 : (int)wd + 1); break;
+		case 'Z': {
+			/* a UTC designator or a numeric offset, decided by the value itself */
+			static const char *zs[] = {"Z", "+00:00", "+01:00", "-05:30", "+0000", "-00:00", "+12:45", "-03:00"};
+			snprintf(b, sizeof(b), "%s", zs[(c.S + c.M + c.d) % 8]);
+			break;
+		}
 		case '%': snprintf(b, sizeof(b), "%%"); break;
 		default: snprintf(b, sizeof(b), "%%%c", f); break;
 		}
@@ -142,6 +148,8 @@ static const InFmt infmts[] = {
 	{"%d %b %Y %H:%M:%S", K_DT, true, true},
 	{"%s", K_DT, true, true},
 	{"%s.%N", K_DT, true, true},
+	{"%FT%T%Z", K_DT, true, true},
+	{"%d/%m/%Y %H:%M:%S %Z", K_DT, true, true},
 	{"%F %I:%M:%S %p", K_DT, true, true},
 	{"%Y%m%d%H%M%S", K_DT, true, true},
 	{"%T", K_TIME, true, true},
@@ -158,7 +166,7 @@ static const InFmt infmts[] = {
 	{"%M:%S", K_TIME, false, true},
 };
 static const size_t n_infmts = sizeof(infmts) / sizeof(*infmts);
-static const size_t n_full_infmts = 27;	/* the first entries */
+static const size_t n_full_infmts = 29;	/* the first entries */
 
 static inline std::string default_value(const Civ &c, int kind, Rng &r, bool sed_forms = false)
 {
@@ -226,7 +234,8 @@ static const char *const special_ofmts[] = {"ymd", "ymcw", "ywd", "yd", "bizda",
 static const char *const inv_zones[] = {"Europe/Berlin", "America/New_York", "Asia/Gaza", "Australia/Lord_Howe", "Asia/Tokyo", "Asia/Kathmandu",
 					"Africa/Casablanca", "America/St_Johns", "Pacific/Apia", "UTC", "EST", "EST5EDT", "MST", "MST7MDT", "NZ",
 					"NZ-CHAT", "Etc/GMT-1", "Etc/GMT-10", "Etc/GMT-14", "GMT", "GMT0", "Europe/Dublin", "America/Sao_Paulo",
-					"Asia/Tehran", "Antarctica/Troll", "Pacific/Kiritimati", "America/Caracas", "Europe/Moscow"};
+					"Asia/Tehran", "Antarctica/Troll", "Pacific/Kiritimati", "America/Caracas", "Europe/Moscow",
+					"+05:00", "+03:00", "+00:45", "+09:30", "+13:00", "+05:00"};
 static const size_t n_inv_zones = sizeof(inv_zones) / sizeof(*inv_zones);
 
 static const char *const durs_date[] = {"+1d", "-1d", "+1mo", "-1mo", "+1y", "-1y", "+3w", "-2w", "+2d", "+100d", "+1mo1d", "-1y2mo",
